@@ -3,18 +3,21 @@
 # /verif/refactors/<ID>-<A|B> (patch.diff, argument.md) and run the quick check on a
 # scratch worktree with the refactor applied (must exit 0)
 cd /verif
+TG=(${TARGETS:-A B})
 for P in "$@"; do
+  i=0
   for V in A B; do
-    src=/tmp/ref_$P
+    T=${TG[$i]}; i=$((i+1))
+    src=${SRC_PREFIX:-/tmp/ref_}$P
     [ -f $src/ref$V.diff ] || continue
-    d=refactors/$P-$V; mkdir -p $d
+    d=refactors/$P-$T; mkdir -p $d
     cp $src/ref$V.diff $d/patch.diff; cp $src/arg$V.md $d/argument.md 2>/dev/null
     WT=$(mktemp -d /tmp/evalref_XXXX); rmdir $WT
     git -C /repo worktree add -q $WT HEAD || continue
-    if ! git -C $WT apply $(realpath $d/patch.diff); then echo "$P-$V PATCH-DOES-NOT-APPLY"; git -C /repo worktree remove --force $WT; continue; fi
+    if ! git -C $WT apply $(realpath $d/patch.diff); then echo "$P-$T PATCH-DOES-NOT-APPLY"; git -C /repo worktree remove --force $WT; continue; fi
     s=$(date +%s)
     VERIF_REPO=$WT timeout 3000 ./check $P --tier quick > $d/check.log 2>&1; ec=$?
-    echo "$P-$V check exit=$ec wall=$(( $(date +%s) - s ))s $(grep -E '^VIOLATION|^INCONCL|^DEGRADED|^  key=' $d/check.log | head -4 | cut -c1-220 | tr '\n' ' ')"
+    echo "$P-$T check exit=$ec wall=$(( $(date +%s) - s ))s $(grep -E '^VIOLATION|^INCONCL|^DEGRADED|^  key=' $d/check.log | head -4 | cut -c1-220 | tr '\n' ' ')"
     git -C /repo worktree remove --force $WT
   done
 done
